@@ -108,7 +108,12 @@ InitsMCq3   == { f \in InitsMCq :
                    \/ ne = Shards \X Series
                    \/ ne = { c \in Shards \X Series : c[1] = 1 }
                    \/ ne = { c \in Shards \X Series : (c[1] = 1) = (c[2] = AnySeries0) }}
-WTimeSetsAll == { <<1>>, <<2>>, <<3>>, <<1, 2, 3>> }
+\* a write is a batch carrying a SET of timestamps (ascending tuple); it conflicts with the delete iff SOME timestamp of the
+\* batch lies inside [lo,hi] (guard.Matches tests point by point) -- a batch that straddles the range, e.g. <<1,3>> against
+\* [2,2], does not conflict
+WTimeSetsAll == { <<1>>, <<2>>, <<3>>, <<1, 2>>, <<2, 3>>, <<1, 3>>, <<1, 2, 3>> }
+WTimeSetsStraddle == { <<1, 3>>, <<2>> }
+RangesMid    == { <<2, 2>> }
 WTimeSetsMC  == { <<2>>, <<1, 3>> }
 
 InRange(t) == drange[1] <= t /\ t <= drange[2]
